@@ -679,10 +679,10 @@ func (s *s1) checkC07(i int, out *TxnOutcome, strict bool) {
 		}
 		if len(exp) == 0 {
 			if len(ups) != 0 && DiffStates(out.Before, out.After, e.Sch.TableNames, nil) != "" && s.onlyEmptyModifies(o, ups) && !(strict && s.mentionsUnchangedRow(o, ups, out)) {
-				// the transaction changed something this monitor did not select and the
-				// frame carries nothing but empty modify entries: tolerated (DESIGN.md section 9)
-				e.Probes["c07_empty_modify_tolerated"]++
-				continue
+				// the transaction only changed what this monitor did not select, and it is sent
+				// empty modify entries (update2) or identical old/new rows (update) all the same
+				e.ViolateK("C07.spurious", "unselected-change", "transaction %d only changed columns monitor %s (%s) did not select but it was sent %s %s\nops: %s", i, o.spec.Owner, o.spec.Method, ups[0].Method, joinRaw(ups[0].Params), shortOps(out.Ops))
+				return
 			}
 			if len(ups) != 0 && strict && s.onlyEmptyModifies(o, ups) {
 				e.ViolateK("C11.noop-reported", "empty-modify", "transaction %d leaves a row exactly as it began but monitor %s (%s) was sent %s %s\nops: %s", i, o.spec.Owner, o.spec.Method, ups[0].Method, joinRaw(ups[0].Params), shortOps(out.Ops))
@@ -751,8 +751,8 @@ func (s *s1) checkC07(i int, out *TxnOutcome, strict bool) {
 				_, exists := pa[r.Table][r.UUID]
 				fullSame := out.Before[r.Table][r.UUID].String() == out.After[r.Table][r.UUID].String()
 				if kind == "modify" && existed && exists && len(r.Modify) == 0 && (v2 || rowsEqualOn(r.Old, r.New)) && !(strict && fullSame) {
-					e.Probes["c07_empty_modify_tolerated"]++
-					continue
+					e.ViolateK("C07.unchanged-row", "unselected-change", "monitor %s was told about %s/%s with an empty modification: the row only changed in columns the monitor did not select\nnotification: %s\nops: %s", o.spec.Owner, r.Table, r.UUID, body, shortOps(out.Ops))
+					return
 				}
 				if strict && fullSame {
 					e.ViolateK("C11.noop-reported", "empty-"+kind, "monitor %s was told about %s/%s (%s) although the row ends the transaction exactly as it began\nnotification: %s\nops: %s", o.spec.Owner, r.Table, r.UUID, kind, body, shortOps(out.Ops))
